@@ -71,6 +71,11 @@ func BuildLedgerWorld(seed int64, idx int, o LedgerOpts) (*World, error) {
 		cfg.Dogfood.EpochsUntilUnbonded = o.Unbond
 	}
 	if o.MaxVals > 0 {
+		// the genesis validator set must fit (the module's own genesis validation refuses more validators than the
+		// maximum); the cap bites as soon as run-time operators opt in
+		if int(o.MaxVals) < o.NOps {
+			o.MaxVals = uint32(o.NOps)
+		}
 		cfg.Dogfood.MaxValidators = o.MaxVals
 	}
 	if o.MinSelf > 0 {
